@@ -17,7 +17,7 @@ def norm_ret(obs):
             for i, o in enumerate(obs)]
 
 
-def make(pid, tags, clauses, gen_kwargs, quick=300, thorough=6000):
+def make(pid, tags, clauses, gen_kwargs, quick=300, thorough=2000):
     def generate(rng, tier):
         # several parameter sets are used in turn (e.g. a family with raising callbacks)
         families = gen_kwargs if isinstance(gen_kwargs, (list, tuple)) else [gen_kwargs]
